@@ -216,6 +216,19 @@ def writeQuadT (nq : Bool) (q : Quad) : Str :=
 
 def writeDocT (nq : Bool) (d : List Quad) : Str := d.flatMap (writeQuadT nq)
 
+/-! ### the io error path
+
+Every write of `write_term` / `write_triple` / `quoted_string` / the closures is a `write_all(..)?`
+(the extractor refuses a fallible call that is not followed by `?`): the first failing one ends
+the serialisation with `Err`.  A sink that takes `room` bytes in total lets `write_all(chunk)` succeed
+iff the chunk fits (an empty chunk always does).  `SophiaProofs.C03.sink_ok_iff`: for ANY split of
+the output into chunks the run succeeds iff the whole output fits — so the driver may use one chunk. -/
+
+/-- remaining room after the writes, `none` = `Err` -/
+def sinkRun : Nat → List Bytes → Option Nat
+  | room, [] => some room
+  | room, c :: cs => if c.length ≤ room then sinkRun (room - c.length) cs else none
+
 /-- some literal in the term makes `quoted_string` panic -/
 def termPanics : Term → Bool
   | .lit lex _ => quotedPanics lex
@@ -471,6 +484,27 @@ def readLine (nq : Bool) (line : Str) : Option (Option Quad) :=
     else if nq then
       (readTerm fuel r4).bind fun x4 => finish ⟨x1.1, x2.1, x3.1, some x4.1⟩ (skipWs x4.2)
     else none
+
+/-! ### reference escaper for the pending pure-ASCII mode
+
+`NtConfig::set_ascii(true)` is `todo!()` in the source.  `quotedAscii` is the obvious specification
+(ASCII as `quoted_string`, everything else as UCHAR, upper-case hex); `SophiaProofs.C03` proves that
+the grammar reader decodes `\\uXXXX` / `\\UXXXXXXXX` for every scalar value (in literals and IRIs) and
+hence reads `quotedAscii s` back as `s`: the oracle the `ascii` requests will be judged by is sound. -/
+
+/-- upper-case hex digit -/
+def hexDigitU (n : Nat) : Char := if n < 10 then Char.ofNat (48 + n) else Char.ofNat (55 + n)
+
+def hex4 (n : Nat) : Str := [hexDigitU (n / 4096 % 16), hexDigitU (n / 256 % 16), hexDigitU (n / 16 % 16), hexDigitU (n % 16)]
+
+def hex8 (n : Nat) : Str := hex4 (n / 65536) ++ hex4 (n % 65536)
+
+def escAscii (c : Char) : Str :=
+  if c.toNat < 128 then escChar c
+  else if c.toNat < 65536 then '\\' :: 'u' :: hex4 c.toNat
+  else '\\' :: 'U' :: hex8 c.toNat
+
+def quotedAscii (s : Str) : Str := s.flatMap escAscii
 
 /-! ## Well-formedness under which the round trip is proved (decidable, stated directly on
 character classes; `SophiaProofs.Props.C03` relates it to the toolkit's validators) -/
